@@ -669,4 +669,8 @@ def check(ctx, rep):
     # run(D)|f == run({f})|f: a Rule object interned per rule id / title is shared by the findings of every file that reports the rule; the
     # report-time back-fill renames it for all of them, so what one file's unfixed findings say depends on which sibling was fixed
     rule_finding_owns_rule(ctx, rep)
+    from .c18 import rule_scan_targets
+
+    # run(D)|f == run({f})|f: a directory scan lets semgrep's own ignore rules (and so the size and layout of the whole project) decide whether f is scanned
+    rule_scan_targets(ctx, rep)
     rep.not_covered += ["sibling-file independence of arbitrary codemods", "thread-safety of libcst / functools.cache internals"]
